@@ -107,7 +107,7 @@ type output struct {
 }
 
 var fieldNames = []string{"block_hash", "parent_hash", "state_root", "tx_root", "receipt_root", "timeout_root",
-	"receipts", "counter", "timeout_counter", "timeout_l2roots", "multitx_counter", "meta_bytes", "state_dump", "balances"}
+	"receipts", "counter", "timeout_counter", "timeout_l2roots", "multitx_counter", "meta_bytes", "state_dump", "balances", "sig_refused"}
 
 // ---------------------------------------------------------------------------------------
 // naming
@@ -392,6 +392,11 @@ func (r *replica) buildTx(h *history, op []int64) (pb.Transaction, string) {
 			tx := hx.TransferTx(k, n, hx.Addr(acctKey(0)), "1")
 			tx.Signature = append([]byte{}, tx.Signature...)
 			tx.Signature[3] ^= 0x11
+			return tx, ""
+		case 7: // zero-amount transfer (always succeeds when executed) with a bad signature
+			tx := hx.TransferTx(k, n, hx.Addr(acctKey(1)), "0")
+			tx.Signature = append([]byte{}, tx.Signature...)
+			tx.Signature[5] ^= 0x24
 			return tx, ""
 		default: // wrong vm type
 			td := &pb.TransactionData{Type: pb.TransactionData_INVOKE, VmType: pb.TransactionData_VMType(7), Payload: []byte("x")}
@@ -777,12 +782,16 @@ func runHistory(h *history) (out output) {
 		}
 	}
 	out.Genesis["header_timestamp_equal"] = []string{same}
-	out.compare(-1, vals)
+	for i := range vals {
+		vals[i]["sig_refused"] = "[]"
+	}
+	out.compare(-1, vals, nil)
 
 	for bi, b := range h.Blocks {
 		vals := make([]map[string]string, h.K)
 		obs := make([]blockObs, h.K)
 		errs := make([]string, h.K)
+		sigOracle := make([]string, h.K)
 		var wg sync.WaitGroup
 		for i, r := range reps {
 			wg.Add(1)
@@ -833,6 +842,16 @@ func runHistory(h *history) (out output) {
 						}
 					}
 				}
+				// deterministic oracle for the signature fan-out: the refused set must be exactly the
+				// transactions whose VerifySignature() fails when called one by one
+				var expected []int
+				sigErr := map[string]bool{}
+				for j, tx := range txs {
+					if err := tx.VerifySignature(); err != nil {
+						expected = append(expected, j)
+						sigErr[err.Error()] = true
+					}
+				}
 				ev := r.c.ExecBlock(txs, false, 20*time.Second)
 				if ev == nil {
 					errs[i] = fmt.Sprintf("replica %d: block %d not executed within the deadline", i, bi)
@@ -853,6 +872,14 @@ func runHistory(h *history) (out output) {
 						}
 					}
 				}
+				var refused []int
+				for j, rc := range rs {
+					if rc.Status == pb.Receipt_FAILED && sigErr[string(rc.Ret)] {
+						refused = append(refused, j)
+					}
+				}
+				f["sig_refused"] = fmt.Sprint(refused)
+				sigOracle[i] = fmt.Sprint(expected)
 				vals[i] = f
 				o := observe(r.c, h, height, rs, meta)
 				o.Txs = o.Txs[nfund:]
@@ -872,7 +899,7 @@ func runHistory(h *history) (out output) {
 			}
 		}
 		agreedBefore := out.Div == nil
-		out.compare(bi, vals)
+		out.compare(bi, vals, map[string]string{"sig_refused": sigOracle[0]})
 		out.Obs = append(out.Obs, obs[0])
 		out.ObsAll = append(out.ObsAll, obs)
 		if agreedBefore && out.Div != nil {
@@ -889,7 +916,9 @@ func runHistory(h *history) (out output) {
 	return
 }
 
-func (o *output) compare(bi int, vals []map[string]string) {
+// compare: every replica must report what replica 0 reports; for the fields named in oracle,
+// additionally what the oracle says (its value is appended as one more entry of the digests).
+func (o *output) compare(bi int, vals []map[string]string, oracle map[string]string) {
 	dg := make([][]string, len(fieldNames))
 	for fi, f := range fieldNames {
 		dg[fi] = make([]string, len(vals))
@@ -900,10 +929,19 @@ func (o *output) compare(bi int, vals []map[string]string) {
 				differ = true
 			}
 		}
+		if want, ok := oracle[f]; ok {
+			dg[fi] = append(dg[fi], hexOf([]byte(want)))
+			if want != vals[0][f] {
+				differ = true
+			}
+		}
 		if differ {
 			d := divergence{Block: bi, Field: f}
 			for i := range vals {
 				d.Values = append(d.Values, trunc(vals[i][f]))
+			}
+			if want, ok := oracle[f]; ok {
+				d.Values = append(d.Values, "oracle:"+trunc(want))
 			}
 			if o.Div == nil {
 				dd := d
